@@ -349,10 +349,58 @@ type globalWrite struct {
 
 // globalWrites lists stores to package-level variables (and updates of maps /
 // slices loaded from them) outside init functions, in the given packages.
+// onceInitialisers: functions that run only as the argument of Do on a package-level sync.Once and take
+// nothing from their caller (no parameters, no captured variables): a lazily built table. What they store
+// is written once, before any reader can see it, and is the same whoever triggers it.
+func onceInitialisers(p *Prog, pkgs ...string) map[*ssa.Function]bool {
+	cand := map[*ssa.Function]bool{}
+	other := map[*ssa.Function]bool{} // referenced anywhere else
+	for _, fn := range p.SrcFuncs(pkgs...) {
+		for _, b := range fn.Blocks {
+			for _, ins := range b.Instrs {
+				var doArg ssa.Value
+				if c, ok := ins.(ssa.CallInstruction); ok {
+					if callee := c.Common().StaticCallee(); callee != nil && callee.String() == "(*sync.Once).Do" && len(c.Common().Args) == 2 {
+						if _, onGlobal := c.Common().Args[0].(*ssa.Global); onGlobal {
+							doArg = c.Common().Args[1]
+						}
+					}
+				}
+				for _, op := range ins.Operands(nil) {
+					var f *ssa.Function
+					switch x := (*op).(type) {
+					case *ssa.Function:
+						f = x
+					case *ssa.MakeClosure:
+						if len(x.Bindings) == 0 {
+							f, _ = x.Fn.(*ssa.Function)
+						} else if g, ok := x.Fn.(*ssa.Function); ok {
+							other[g] = true
+						}
+					}
+					if f == nil {
+						continue
+					}
+					if *op == doArg && f.Signature.Params().Len() == 0 && len(f.FreeVars) == 0 {
+						cand[f] = true
+					} else {
+						other[f] = true
+					}
+				}
+			}
+		}
+	}
+	for f := range other {
+		delete(cand, f)
+	}
+	return cand
+}
+
 func globalWrites(p *Prog, pkgs ...string) []globalWrite {
 	var out []globalWrite
+	once := onceInitialisers(p, pkgs...)
 	for _, fn := range p.SrcFuncs(pkgs...) {
-		if fn.Name() == "init" || strings.HasPrefix(fn.Name(), "init#") {
+		if fn.Name() == "init" || strings.HasPrefix(fn.Name(), "init#") || once[fn] {
 			continue
 		}
 		// fromGlobal: the address (or map / slice / pointer) designates storage reachable from a package-level
@@ -482,7 +530,45 @@ func stateRule(p *Prog, rp *Report, id string, roots ...*ssa.Function) {
 		n++
 		r.bad(shortPkg(w.Fn)+":"+w.G+":writer("+fname(w.Fn)+")", p.Pos(w.Pos), w.How+" of the package-level variable "+w.G+": what a call returns can depend on earlier calls, and concurrent calls share mutable state", nil)
 	}
+	// a package-level object of a foreign, stateful type (a decoder, a buffer, a hash) on which reachable code calls
+	// methods is shared mutable state too, although no store to the variable is ever seen
+	immutable := map[string]bool{"regexp.Regexp": true, "strings.Replacer": true, "time.Location": true, "text/template.Template": true, "html/template.Template": true, "sync.Once": true, "sync.Mutex": true, "sync.RWMutex": true, "sync.Map": true, "sync.Pool": true, "math/big.Int": false}
+	for f := range onPath {
+		for _, c := range allCalls(f) {
+			cc := c.Common()
+			callee := cc.StaticCallee()
+			if callee == nil || callee.Signature.Recv() == nil || inRepoOrRef(callee) || len(cc.Args) == 0 {
+				continue
+			}
+			// receiver loaded from a package-level variable of the repository
+			recv := cc.Args[0]
+			if u, ok := recv.(*ssa.UnOp); ok && u.Op == token.MUL {
+				recv = u.X
+			}
+			g, isGlobal := recv.(*ssa.Global)
+			if !isGlobal || g.Pkg == nil || !strings.HasPrefix(g.Pkg.Pkg.Path(), repoModule) {
+				continue
+			}
+			rt := callee.Signature.Recv().Type()
+			if pt, isPtr := rt.(*types.Pointer); isPtr {
+				rt = pt.Elem()
+			}
+			nt, isNamed := rt.(*types.Named)
+			if !isNamed || nt.Obj().Pkg() == nil {
+				continue
+			}
+			tn := nt.Obj().Pkg().Path() + "." + nt.Obj().Name()
+			if immutable[tn] {
+				continue
+			}
+			if _, isErr := callee.Signature.Recv().Type().Underlying().(*types.Interface); isErr {
+				continue
+			}
+			n++
+			r.bad(shortPkg(f)+":"+g.Name()+":shared("+fname(f)+")", p.Pos(c.Pos()), fmt.Sprintf("calls %s on the package-level %s object %s: one stateful object serves every call, so calls that overlap (or follow each other) interfere", callee.Name(), tn, g.Name()), nil)
+		}
+	}
 	if n == 0 {
-		r.ok(strings.Join(names, ", "), "", fmt.Sprintf("%d functions reachable from the entry points: none stores to a package-level variable or updates a map / sync.Map reachable from one", len(onPath)))
+		r.ok(strings.Join(names, ", "), "", fmt.Sprintf("%d functions reachable from the entry points: none stores to a package-level variable, updates a map / sync.Map reachable from one, or calls methods on a package-level object of a foreign stateful type", len(onPath)))
 	}
 }
